@@ -17,6 +17,9 @@ CFG_SOUND = "SPECIFICATION Spec\nINVARIANT Sound\n"
 CFG_COMPLETE = "SPECIFICATION Spec\nINVARIANT Complete\n"
 
 
+WEIGHT = {"dcrm": 3, "tcrm": 2}
+
+
 def corpus_for(ctx, cname, n):
     g = Gen(ctx.rng, **compobs.MASKS[cname])
     return [g.problem() for _ in range(n)]
@@ -26,12 +29,14 @@ def compile_corpus(ctx, per_compiler, compilers=None):
     jobs = []
     cid = 0
     for cname in (compilers or compobs.COMPILERS):
+        # the compilers with the richest case analysis get a larger share of the corpus
+        per_c = per_compiler * WEIGHT.get(cname, 1)
         half = per_compiler // 2 + per_compiler % 2
-        for i, P in enumerate(corpus_for(ctx, cname, half + per_compiler)):
+        for i, P in enumerate(corpus_for(ctx, cname, half + per_c)):
             # `half` problems with random goals; `per_compiler` further problems, each in two variants whose goals are
             # taken from a state that a short random walk reaches (compobs.goal_directed, seeded by cid): these have
             # short valid plans that depend on the effects along them, and are explored one step less deep
-            for _ in range(1 if i < half else 2):
+            for _ in range(1 if i < half else (4 if cname in WEIGHT else 2)):
                 cid += 1
                 jobs.append((cid, P, cname, False if i < half else "goal-directed"))
     with Pool(14, maxtasksperchild=40) as pool:
